@@ -409,6 +409,11 @@ func (iv *IV) structural(v ssa.Value, b *ssa.BasicBlock, depth int) Itv {
 			return Itv{maxB(x.Lo, y.Lo), maxHi(x.Hi, y.Hi)}
 		}
 	case *ssa.Extract:
+		if c, ok := v.Tuple.(*ssa.Call); ok {
+			if r, ok := iv.calleeResultIdx(c, v.Index, tr, depth); ok {
+				return r
+			}
+		}
 		if c, ok := v.Tuple.(*ssa.Call); ok && v.Index == 0 {
 			name := CalleeName(c.Common())
 			if (name == "strconv.ParseUint" || name == "strconv.ParseInt") && len(c.Call.Args) == 3 {
@@ -439,14 +444,22 @@ func (iv *IV) structural(v ssa.Value, b *ssa.BasicBlock, depth int) Itv {
 // hull of the intervals of its return sites (context-insensitive: parameters range over their types;
 // the conditions that dominate each return site apply). Recursive callees give no information.
 func (iv *IV) calleeResult(c *ssa.Call, tr Itv, depth int) (Itv, bool) {
+	if c.Call.StaticCallee() == nil || c.Call.StaticCallee().Signature.Results().Len() != 1 {
+		return tr, false
+	}
+	return iv.calleeResultIdx(c, 0, tr, depth)
+}
+
+// calleeResultIdx: the same for result number idx of a (possibly tuple-returning) module callee.
+func (iv *IV) calleeResultIdx(c *ssa.Call, idx int, tr Itv, depth int) (Itv, bool) {
 	callee := c.Call.StaticCallee()
 	if callee == nil || callee.Blocks == nil || !iv.W.InModule(callee) || depth > 6 {
 		return tr, false
 	}
-	if callee.Signature.Results().Len() != 1 {
+	if idx >= callee.Signature.Results().Len() {
 		return tr, false
 	}
-	if _, _, isInt := intInfo(callee.Signature.Results().At(0).Type(), iv.W); !isInt {
+	if _, _, isInt := intInfo(callee.Signature.Results().At(idx).Type(), iv.W); !isInt {
 		return tr, false
 	}
 	if iv.inCallee == nil {
@@ -459,7 +472,10 @@ func (iv *IV) calleeResult(c *ssa.Call, tr Itv, depth int) (Itv, bool) {
 	defer delete(iv.inCallee, callee)
 	var hull *Itv
 	for _, r := range Returns(callee) {
-		it := iv.with(r.Results[0], r.Block(), CondsAt(r.Block()), depth+1)
+		if idx >= len(r.Results) {
+			return tr, false
+		}
+		it := iv.with(r.Results[idx], r.Block(), CondsAt(r.Block()), depth+1)
 		if hull == nil {
 			h := it
 			hull = &h
